@@ -26,6 +26,8 @@ class Flags:
     indexed: bool = True  # index labels are defined by the query
     rowset: str = ""  # values with the same token are co-aligned
     pandas_ok: bool = True  # the pandas value is a valid reference
+    layout: bool = True  # the partition boundaries are defined by the query (not by a shuffle/sort algorithm)
+    defined: bool = True  # False: several results satisfy the query (partial head/tail of an algorithm-partitioned frame)
     srcs: tuple = ()
 
 
@@ -682,7 +684,7 @@ class Head(Op):
     def flags(ins, args, out):
         f = ins[0][1]
         exact = args["how"] == "head" and args["npartitions"] == -1
-        return replace(f, rowset="", pandas_ok=f.pandas_ok and exact)
+        return replace(f, rowset="", pandas_ok=f.pandas_ok and exact, defined=f.defined and (exact or f.layout), layout=True)
 
 
 @register("dropna", kinds=("frame", "series"), weight=0.8, tags={"filter"})
@@ -723,7 +725,7 @@ class DropDuplicates(Op):
 
     @staticmethod
     def flags(ins, args, out):
-        return replace(ins[0][1], rowset="", ordered=False, indexed=False)
+        return replace(ins[0][1], rowset="", ordered=False, indexed=False, layout=False)
 
 
 @register("nlargest", kinds=("frame",), weight=0.8, tags={"topk"})
@@ -743,7 +745,7 @@ class NLargest(Op):
 
     @staticmethod
     def flags(ins, args, out):
-        return replace(ins[0][1], rowset="", ordered=True)
+        return replace(ins[0][1], rowset="", ordered=True, layout=True)
 
 
 def _no_ties(pdf, by):
@@ -769,7 +771,7 @@ class SortValues(Op):
     @staticmethod
     def flags(ins, args, out):
         x, f = ins[0]
-        return replace(f, rowset="", ordered=_no_ties(x, list(args["by"])))
+        return replace(f, rowset="", ordered=_no_ties(x, list(args["by"])), layout=False)
 
 
 @register("set_index", kinds=("frame",), weight=1.2, tags={"sort", "set_index"})
@@ -794,7 +796,7 @@ class SetIndex(Op):
     @staticmethod
     def flags(ins, args, out):
         x, f = ins[0]
-        return replace(f, rowset="", indexed=True, ordered=bool(x[args["col"]].is_unique))
+        return replace(f, rowset="", indexed=True, ordered=bool(x[args["col"]].is_unique), layout=False)
 
 
 @register("shuffle", kinds=("frame",), weight=0.8, tags={"shuffle"})
@@ -816,7 +818,7 @@ class Shuffle(Op):
 
     @staticmethod
     def flags(ins, args, out):
-        return replace(ins[0][1], rowset="", ordered=False)
+        return replace(ins[0][1], rowset="", ordered=False, layout=False)
 
 
 @register("repartition", kinds=("frame", "series"), weight=0.6, tags={"repartition"})
@@ -841,6 +843,8 @@ class Partitions(Op):
     @staticmethod
     def gen(draw, ins):
         s = st()
+        if not ins[0][1].layout:
+            return None
         return {"sel": draw(s.lists(s.integers(0, 5), min_size=1, max_size=3))}
 
     @staticmethod
@@ -896,7 +900,7 @@ class Reduce(Op):
 
     @staticmethod
     def flags(ins, args, out):
-        return replace(ins[0][1], rowset="", ordered=True, indexed=True)
+        return replace(ins[0][1], rowset="", ordered=True, indexed=True, layout=True)
 
 
 @register("value_counts", kinds=("series",), weight=0.7, tags={"reduction"})
@@ -915,7 +919,7 @@ class ValueCounts(Op):
 
     @staticmethod
     def flags(ins, args, out):
-        return replace(ins[0][1], rowset="", ordered=False, indexed=True)
+        return replace(ins[0][1], rowset="", ordered=False, indexed=True, layout=False)
 
 
 @register("unique", kinds=("series",), weight=0.5, tags={"reduction", "dedup"})
@@ -935,7 +939,7 @@ class Unique(Op):
 
     @staticmethod
     def flags(ins, args, out):
-        return replace(ins[0][1], rowset="", ordered=False, indexed=False)
+        return replace(ins[0][1], rowset="", ordered=False, indexed=False, layout=False)
 
 
 # ------------------------------------------------------------------ groupby
@@ -999,7 +1003,7 @@ class GroupbyAgg(Op):
 
     @staticmethod
     def flags(ins, args, out):
-        return replace(ins[0][1], rowset="", indexed=True, ordered=False)
+        return replace(ins[0][1], rowset="", indexed=True, ordered=False, layout=False)
 
 
 # ------------------------------------------------------------------ joins / concat
@@ -1038,7 +1042,7 @@ class Merge(Op):
     @staticmethod
     def flags(ins, args, out):
         fa, fb = ins[0][1], ins[1][1]
-        return Flags(ordered=False, indexed=False, rowset="", pandas_ok=fa.pandas_ok and fb.pandas_ok, srcs=tuple(sorted(set(fa.srcs) | set(fb.srcs))))
+        return Flags(ordered=False, indexed=False, layout=False, rowset="", pandas_ok=fa.pandas_ok and fb.pandas_ok, srcs=tuple(sorted(set(fa.srcs) | set(fb.srcs))))
 
 
 @register("merge_index", arity=2, kinds=("frame", "frame"), weight=1, tags={"join"})
@@ -1064,7 +1068,7 @@ class MergeIndex(Op):
     @staticmethod
     def flags(ins, args, out):
         fa, fb = ins[0][1], ins[1][1]
-        return Flags(ordered=False, indexed=True, rowset="", pandas_ok=fa.pandas_ok and fb.pandas_ok, srcs=tuple(sorted(set(fa.srcs) | set(fb.srcs))))
+        return Flags(ordered=False, indexed=True, layout=False, rowset="", pandas_ok=fa.pandas_ok and fb.pandas_ok, srcs=tuple(sorted(set(fa.srcs) | set(fb.srcs))))
 
 
 @register("concat0", arity=2, kinds=("frame", "frame"), weight=1, tags={"concat"})
@@ -1089,7 +1093,7 @@ class Concat0(Op):
     @staticmethod
     def flags(ins, args, out):
         fa, fb = ins[0][1], ins[1][1]
-        return Flags(ordered=fa.ordered and fb.ordered, indexed=fa.indexed and fb.indexed, rowset="", pandas_ok=fa.pandas_ok and fb.pandas_ok, srcs=tuple(sorted(set(fa.srcs) | set(fb.srcs))))
+        return Flags(ordered=fa.ordered and fb.ordered, indexed=fa.indexed and fb.indexed, layout=fa.layout and fb.layout, rowset="", pandas_ok=fa.pandas_ok and fb.pandas_ok, srcs=tuple(sorted(set(fa.srcs) | set(fb.srcs))))
 
 
 @register("concat1", arity=2, kinds=("frame", "any"), weight=0.7, tags={"concat", "aligned"})
@@ -1158,3 +1162,42 @@ class Shift(Op):
 
 def op_names(tags=None, exclude=()):
     return [n for n, o in OPS.items() if (tags is None or o.tags & set(tags)) and n not in exclude]
+
+
+# ------------------------------------------------------------------ materialisation boundaries (C17, C09)
+
+
+def apply_cut(obj, how):
+    """dask-side: cut the query at ``obj`` and re-import it."""
+    import dask_expr as dx
+
+    if how == "persist":
+        return obj.persist(scheduler="sync")
+    if how == "delayed":
+        parts = obj.to_delayed()
+        return dx.from_delayed(parts, meta=obj._meta, divisions=obj.divisions)
+    if how == "delayed_nodiv":
+        parts = obj.to_delayed()
+        return dx.from_delayed(parts, meta=obj._meta)
+    if how == "legacy":
+        return dx.from_legacy_dataframe(obj.to_legacy_dataframe())
+    if how == "legacy_noopt":
+        return dx.from_legacy_dataframe(obj.to_legacy_dataframe(optimize=False))
+    raise ValueError(how)
+
+
+@register("cut", kinds=("frame", "series"), weight=0.0, tags={"cut"})
+class Cut(Op):
+    @staticmethod
+    def gen(draw, ins):
+        return {"how": draw(st().sampled_from(["persist", "delayed", "legacy", "delayed_nodiv", "legacy_noopt"]))}
+
+    @staticmethod
+    def apply(side, objs, args):
+        if side == "pandas":
+            return objs[0]
+        return apply_cut(objs[0], args["how"])
+
+    @staticmethod
+    def flags(ins, args, out):
+        return replace(ins[0][1], rowset="")
